@@ -3,6 +3,8 @@ import importlib
 
 # prop: (module, class, block size, quick runs, thorough runs)
 REGISTRY = {
+    'C08': ('sim.machines.edit_grid', 'GridMachine', 64, 8000, 150000),
+    'C09': ('sim.machines.edit_grid', 'GridPhysicsMachine', 64, 6000, 100000),
     'C13': ('sim.machines.store_incon', 'InconMachine', 128, 12000, 200000),
 }
 
